@@ -74,7 +74,7 @@ func chainNonTrivial(chain []*MW) bool {
 }
 
 func runC04(e *Env) {
-	e.Rule = "registration programs (AST): Use / Group (nested to depth 4, via Group or Controller) / routes with variadic middleware and later Route.Use calls (immediately or at program end) / top-level Use before, between and after routes / NotFound / NotAllowed, HandleMethodNotAllowed on/off, cache off/on; every handler is a fresh closure calling Next 0, 1 or 2 times (main handlers too). One request per route + a not-found + a wrong-method request; the recorded enter/leave trace must equal the onion interpreter's trace of the chain predicted by the reference scope model. Non-trivial: depth >= 2, Use after a route, sibling groups, or a 0/2-Next handler in the chain; distinct by (program, request)."
+	e.Rule = "registration programs (AST): Use / Group (nested to depth 4, via Group or Controller) / routes with variadic middleware and later Route.Use calls (immediately or at program end) / top-level Use before, between and after routes / NotFound / NotAllowed, HandleMethodNotAllowed on/off, cache off/on; every handler is a fresh closure calling Next 0, 1 or 2 times (main handlers too). One request per route + a not-found + a wrong-method request + an overlapping pair (a second request served by the same router while the first is parked inside one of its handlers); the recorded enter/leave trace must equal the onion interpreter's trace of the chain predicted by the reference scope model. Non-trivial: depth >= 2, Use after a route, sibling groups, or a 0/2-Next handler in the chain; distinct by (program, request)."
 	e.Assumptions = []string{
 		"the 40-line scope model + 15-line onion interpreter in harness/mon/prog.go are the trusted statement of the documented order",
 		"chains stay far below the handler limit here (long chains are C05's business)",
@@ -86,12 +86,14 @@ func runC04(e *Env) {
 	e.Require("programs.use_after_route", 100)
 	e.Require("programs.depth_ge_2", 100)
 	e.Require("chains.with_no_next_handler", 100)
+	e.Require("requests.overlapping_pairs", 1000)
 }
 
 func c04Case(t *T) {
 	r := t.R
 	g := &progGen{maxDepth: 4, dynamic: true, ctrl: true}
 	p := GenProgram(r, g)
+	armPanics(p) // enables the X-Nest header: a second request served while the first is inside a handler
 	var failing []string
 	t.Describe(func() any {
 		d := p.Describe().(map[string]any)
@@ -146,6 +148,42 @@ func c04Case(t *T) {
 	for _, rs := range p.Routes {
 		chain := append(append(append([]*MW{}, p.Globals...), rs.Chain...), rs.Main)
 		check("route", rs.Method, rs.RequestPath(r), chain, 200)
+	}
+	// two requests in flight at once: the inner one is served by the same router while the
+	// outer one is parked inside one of its handlers; both must still run exactly their own chain
+	if len(p.Routes) > 0 {
+		outer, inner := pick(r, p.Routes), pick(r, p.Routes)
+		ochain := append(append(append([]*MW{}, p.Globals...), outer.Chain...), outer.Main)
+		ichain := append(append(append([]*MW{}, p.Globals...), inner.Chain...), inner.Main)
+		site := pick(r, ochain)
+		req := NewReq(outer.Method, outer.RequestPath(r))
+		ipath := inner.RequestPath(r)
+		req.Header.Set("X-Nest", site.ID+"|"+inner.Method+"|"+ipath)
+		rec, pv, panicked := Serve(router, req)
+		t.Count("requests.overlapping_pairs", 1)
+		if panicked {
+			failing = append(failing, "nested "+outer.Name+"/"+inner.Name)
+			t.Fail("servehttp-panic", "overlapping pair %s (with %s served inside %s) panicked: %v", outer.Name, inner.Name, site.ID, pv)
+			return
+		}
+		var wantOuter []string
+		for _, ev := range OnionEvents(ochain) {
+			wantOuter = append(wantOuter, ev)
+			if ev == "enter("+site.ID+")" {
+				wantOuter = append(wantOuter, "nested-done")
+			}
+		}
+		in, _ := rec.Extra["nested_rec"].(*Rec)
+		if !eventsEqual(wantOuter, rec.Events) {
+			failing = append(failing, "nested "+outer.Name+"/"+inner.Name)
+			t.Fail("overlapping-outer-"+classifyTrace(wantOuter, rec.Events), "request %s %q with request %s %q served while it was inside %s:\n expected trace of the outer request: %s\n observed: %s", outer.Method, req.URL.Path, inner.Method, ipath, site.ID, strings.Join(wantOuter, " "), strings.Join(rec.Events, " "))
+			return
+		}
+		if wantInner := OnionEvents(ichain); in == nil || !eventsEqual(wantInner, in.Events) {
+			failing = append(failing, "nested "+outer.Name+"/"+inner.Name)
+			t.Fail("overlapping-inner-trace", "request %s %q served inside %s of request %s: expected trace %s, observed %v", inner.Method, ipath, site.ID, outer.Name, strings.Join(wantInner, " "), outcomeEvents(in))
+			return
+		}
 	}
 	// not found
 	nf := p.NotFoundH
@@ -308,4 +346,11 @@ func hasEnter(ev []string, id string) bool {
 		}
 	}
 	return false
+}
+
+func outcomeEvents(r *Rec) []string {
+	if r == nil {
+		return nil
+	}
+	return r.Events
 }
